@@ -39,6 +39,13 @@ Plug-in interface (module attributes):
                                     (default 70000 quick / 300000 thorough)
     T2_PER_FILE                  -> optional number of Tier-2 instances per generated file (default 6)
     TIER1, tier1_problems        -> optional, see 3.
+    def big(tier, rng)           -> optional; problems too large for the candidate enumeration (long thin boards 1xN / 2xN / Nx1
+                                    with N in 19..25, multi-digit clue values, 5x5 / 4x6 boards with a few rooms).  They are
+                                    checked by big_case: every grid the really posted program admits (z3, capped) must obey
+                                    rules_<p>; every grid listed under the problem's key "planted" (answers in answer-array
+                                    order, constructed by the generator) must obey rules_<p> (else harness error) and be admitted
+                                    by the posted program; "n_solutions" (optional, a direct combinatorial count) must be the
+                                    number of admitted grids when the enumeration is complete.
 """
 import importlib
 import itertools
@@ -162,6 +169,7 @@ class RecSolver(Solver):
     instances = []
     mode = "solve"
     cap = 200000
+    timeout_ms = None        # per z3 check, used by the big-board mode
 
     def __init__(self):
         super().__init__()
@@ -180,7 +188,8 @@ class RecSolver(Solver):
         if RecSolver.mode == "capture":
             return False
         kids = [i for i, k in enumerate(self.is_answer_key) if k]
-        sols = all_key_solutions(self, kids, RecSolver.cap)
+        self.status = []
+        sols = all_key_solutions(self, kids, RecSolver.cap, RecSolver.timeout_ms, self.status)
         self.key_ids, self.key_sols = kids, sols
         if not sols:
             return False
@@ -293,15 +302,19 @@ def z3_check(solver):
     return zs.check() == z3mod().sat
 
 
-def all_key_solutions(solver, kids, cap, timeout_ms=None):
-    """every assignment of the variables `kids` that extends to a model of the posted program"""
+def all_key_solutions(solver, kids, cap, timeout_ms=None, status=None):
+    """every assignment of the variables `kids` that extends to a model of the posted program;
+    status (a list) receives "complete" when the enumeration ended with unsat, else "capped" / "unknown"."""
     z3 = z3mod()
     zs, zv = z3_problem(solver)
     if timeout_ms:
         zs.set("timeout", timeout_ms)
     sols = []
     while True:
-        if zs.check() != z3.sat:
+        r = zs.check()
+        if r != z3.sat:
+            if status is not None:
+                status.append("complete" if r == z3.unsat else "unknown")
             break
         m = zs.model()
         vals, block = [], []
@@ -316,7 +329,13 @@ def all_key_solutions(solver, kids, cap, timeout_ms=None):
                 vals.append(n)
                 block.append(zv[i] != n)
         sols.append(tuple(vals))
-        if not block or len(sols) > cap:
+        if not block:
+            if status is not None:
+                status.append("complete")
+            break
+        if len(sols) > cap:
+            if status is not None:
+                status.append("capped")
             break
         zs.add(z3.Or(block))
     return sols
@@ -414,6 +433,74 @@ def search_case(plug, pb, model, max_answers=70000):
     elif obs != exp:
         res = {"status": "harness", "why": "solution sets agree but reported view differs: %r vs %r" % (obs, exp)}
     return res
+
+
+def big_case(plug, pb, model, cap=24, timeout_ms=20000):
+    """a problem too large for the candidate enumeration (see `big` in the module docstring)"""
+    secs = plug.encode(pb)
+    tok = pb_tokens(secs)
+    saved = (RecSolver.cap, RecSolver.timeout_ms)
+    RecSolver.cap, RecSolver.timeout_ms = cap, timeout_ms
+    try:
+        r, insts = run_recorded(plug, pb, "solve")
+    finally:
+        RecSolver.cap, RecSolver.timeout_ms = saved
+    planted = [tuple(int(v) for v in a) for a in pb.get("planted", [])]
+    for a in planted:
+        if model.call("R %s %s | %s" % (plug.NAME, tok, " ".join(map(str, a)))) != "1":
+            return {"status": "harness", "why": "planted grid does not obey rules_%s: %r" % (plug.NAME, a)}
+    if r[0] == "err":
+        return {"status": "violation", "what": "solve_%s raises %s on a well-formed problem" % (plug.NAME, r[1]),
+                "expected": {"has_solution": bool(planted) or None}, "observed": {"error": r[1]}}
+    ret = r[1]
+    is_sat = ret[0]
+    avars = flat_vars(answer_arrays(plug, ret))
+    aids = [v.id for v in avars]
+    if len(insts) != 1:
+        return {"status": "harness", "why": "%d Solver objects created" % len(insts)}
+    sv = insts[0]
+    kids = [i for i, k in enumerate(sv.is_answer_key) if k]
+    if sorted(aids) != kids:
+        return {"status": "harness", "why": "returned arrays are not exactly the answer keys"}
+    if not sv.solve_called:
+        Z, complete = [], True
+    else:
+        pos = {i: k for k, i in enumerate(sv.key_ids)}
+        Z = [tuple(int(s[pos[i]]) for i in aids) for s in sv.key_sols]
+        complete = sv.status == ["complete"]
+        if sv.status == ["unknown"] and not Z and not planted:
+            return {"status": "skipped", "why": "z3 gave no answer within %d ms" % timeout_ms}
+    bad_extra = [z for z in Z if model.call("R %s %s | %s" % (plug.NAME, tok, " ".join(map(str, z)))) == "0"][:3]
+    missing = []
+    for a in planted:
+        if a in Z:
+            continue
+        if complete:
+            missing.append(a)
+            continue
+        z3 = z3mod()
+        zs, zv = z3_problem(sv)
+        zs.set("timeout", timeout_ms)
+        for i, v in zip(aids, a):
+            zs.add(zv[i] == (z3.BoolVal(bool(v)) if isinstance(sv.variables[i], BoolVar) else v))
+        if zs.check() == z3.unsat:
+            missing.append(a)
+    what = []
+    if bad_extra:
+        what.append("the solver admits a grid that breaks the rules")
+    if missing:
+        what.append("the solver rejects a grid that obeys the rules")
+    if planted and not is_sat and (not sv.solve_called or sv.status != ["unknown"]):
+        what.append("solver reports no solution but a rule-obeying grid exists")
+    want = pb.get("n_solutions")
+    if want is not None and complete and len(set(Z)) != want and not what:
+        what.append("the solver admits %d grids, the rules admit %d" % (len(set(Z)), want))
+    if what:
+        return {"status": "violation", "what": "; ".join(what),
+                "expected": {"has_solution": bool(planted) or None, "n_solutions": want},
+                "observed": {"has_solution": bool(is_sat), "n_solutions_seen": len(Z), "enumeration": sv.status if sv.solve_called else None},
+                "admitted_but_breaking_rules": bad_extra, "obeying_rules_but_rejected": missing[:3]}
+    return {"status": "ok", "n_solver": len(Z), "complete": complete, "view": None}
 
 
 def real_case(plug, pb):
@@ -608,3 +695,43 @@ def region_ids(h, w, blocks):
 
 def flat(grid):
     return [v for row in grid for v in row]
+
+
+# ---------------------------------------------------------------- generators for the big-board mode
+
+LONG = [19, 20, 21, 22, 23, 24, 25]
+
+
+def random_rooms(rng, h, w, k):
+    """a random partition of the board into k orthogonally connected rooms (grown from k seeds), each a list of
+    [y, x] in row-major order, rooms ordered by their least cell"""
+    cells = [(y, x) for y in range(h) for x in range(w)]
+    seeds = rng.sample(cells, k)
+    owner = {c: i for i, c in enumerate(seeds)}
+    while len(owner) < len(cells):
+        cand = [c for c in cells if c not in owner and any((c[0] + d[0], c[1] + d[1]) in owner for d in ((1, 0), (-1, 0), (0, 1), (0, -1)))]
+        c = rng.choice(cand)
+        nb = [owner[(c[0] + d[0], c[1] + d[1])] for d in ((1, 0), (-1, 0), (0, 1), (0, -1)) if (c[0] + d[0], c[1] + d[1]) in owner]
+        owner[c] = rng.choice(nb)
+    blocks = [[] for _ in range(k)]
+    for c in cells:
+        blocks[owner[c]].append(list(c))
+    blocks.sort(key=lambda b: b[0])
+    return blocks
+
+
+def lattice_answer(h, w, segs):
+    """flattened BoolGridFrame answer of the lattice h x w with the segments `segs` = set of ((y, x), (y2, x2)) drawn"""
+    segs = {tuple(sorted(e)) for e in segs}
+    out = []
+    for y in range(h):
+        for x in range(w - 1):
+            out.append(1 if ((y, x), (y, x + 1)) in segs else 0)
+    for y in range(h - 1):
+        for x in range(w):
+            out.append(1 if ((y, x), (y + 1, x)) in segs else 0)
+    return out
+
+
+def transpose_grid(g):
+    return [list(r) for r in zip(*g)] if g else g
